@@ -193,7 +193,7 @@ fn can_write(u: &UserSpec, grants: &BTreeMap<(String, usize), (bool, bool)>, ty:
 static EXCL: Mutex<Option<Excl>> = Mutex::new(None);
 
 fn run_case(c: &Case, rep: &mut CaseReport) -> Verdict {
-    let ex = EXCL.lock().unwrap().unwrap_or(Excl { bypass_id: false, unchecked_kinds: false, agg_ignores_type: true });
+    let ex = EXCL.lock().unwrap().unwrap_or(Excl { bypass_id: false, unchecked_kinds: false, agg_ignores_type: false });
     let case = CaseDir::new("c13");
     let port = free_port();
     let cfg = DbConfig { session_expiry: if c.expired.is_some() { 2 } else { 300 }, bypass_auth: false, admin_user: Some(ADMIN.into()), admin_key: Some(ADMIN_KEY.into()), tcp_port: port, shard_count: 2, event_per_zone: 1000, fill_factor: 2, ..DbConfig::default() };
